@@ -356,16 +356,18 @@ func H_C08_subkeys() {
 
 // number-typed sub-key values (concrete numerals: exact float64 semantics)
 func H_C08_subkeys_num() {
-	nums := []string{"0.1", "19.99", "16777217", "2.5", "1e3", "-0.5", "3"}
-	vals := []float64{0.1, 19.99, 16777217, 2.5, 1000, -0.5, 3}
+	nums := []string{"0.1", "19.99", "16777217", "2.5", "1e3", "-0.5", "3", "0"}
+	vals := []float64{0.1, 19.99, 16777217, 2.5, 1000, -0.5, 3, 0}
 	i := vChoose(len(nums))
 	j := vChoose(len(nums))
 	word := []string{"num", "number", "float", "float64", "numeric"}[vChoose(5)]
 	neg := vChoose(2) == 1
+	// a third member whose value under the key is not a number at all
+	other := []interface{}{"x", "0", false, nil, map[string]interface{}{}}[vChoose(5)]
 	m := Map{"r": []interface{}{
 		map[string]interface{}{"p": vals[i], "n": "one"},
 		map[string]interface{}{"p": vals[j], "n": "two"},
-		map[string]interface{}{"p": "x", "n": "three"},
+		map[string]interface{}{"p": other, "n": "three"},
 	}}
 	spec := "p:" + nums[i] + ":" + word
 	if neg {
@@ -374,7 +376,7 @@ func H_C08_subkeys_num() {
 	got, err := m.ValuesForKey("r", spec)
 	vAssert(err == nil, "subkeys(num): a numeric sub-key spec is accepted")
 	want := 0
-	for k, v := range []interface{}{vals[i], vals[j], "x"} {
+	for k, v := range []interface{}{vals[i], vals[j], other} {
 		f, isF := v.(float64)
 		match := isF && f == vals[i]
 		if match != neg {
